@@ -8,17 +8,17 @@ From Coq Require Import Lia ZifyBool ZifyN ZifyNat Arith.
 Local Open Scope N_scope.
 Ltac Zify.zify_post_hook ::= Z.div_mod_to_equations.
 
-(* evaluate one step of tbl_find on a literal table: the row's used flag,
+(* evaluate one step of sftbl_find on a literal table: the row's used flag,
    base and maximum are computed, the range test is decided by lia from the
    hypotheses about x *)
 Ltac find_step :=
   match goal with
-  | |- context [tbl_find (?l :: ?t) ?x] =>
-      let m := eval vm_compute in (lv_max l) in
-      let b := eval vm_compute in (lv_base l) in
-      let u := eval vm_compute in (lv_used l) in
-      change (tbl_find (l :: t) x)
-        with (if u && (b <=? x) && (x <=? m) then Some l else tbl_find t x)
+  | |- context [sftbl_find (?l :: ?t) ?x] =>
+      let m := eval vm_compute in (sflv_max l) in
+      let b := eval vm_compute in (sflv_base l) in
+      let u := eval vm_compute in (sflv_used l) in
+      change (sftbl_find (l :: t) x)
+        with (if u && (b <=? x) && (x <=? m) then Some l else sftbl_find t x)
   end.
 Ltac find_pick :=
   match goal with
@@ -53,15 +53,15 @@ Qed.
 Theorem sf_put_is_spec x : x < 18446744073709551616 -> sf_put x = sf_spec x.
 Proof.
   intro Hx. rewrite sf_put_norm by exact Hx.
-  unfold sf_spec, tbl_encode, sf_norm, sf_table.
+  unfold sf_spec, sftbl_encode, sf_norm, sf_table.
   destruct (x <=? 63) eqn:E1.
-  { find_go. change (lv_encode _ x) with (be_bytes 1 (0 + (x - 0))).
+  { find_go. change (sflv_encode _ x) with (be_bytes 1 (0 + (x - 0))).
     rewrite sfl_be_bytes_1. f_equal. lia. }
   destruct (x <=? 16446) eqn:E2.
-  { find_go. change (lv_encode _ x) with (be_bytes 2 (16384 + (x - 63))).
+  { find_go. change (sflv_encode _ x) with (be_bytes 2 (16384 + (x - 63))).
     rewrite sfl_be_bytes_2. f_equal; [lia|]. f_equal. lia. }
   destruct (x <=? 4210749) eqn:E3.
-  { find_go. change (lv_encode _ x) with (be_bytes 3 (8388608 + (x - 16446))).
+  { find_go. change (sflv_encode _ x) with (be_bytes 3 (8388608 + (x - 16446))).
     rewrite sfl_be_bytes_3. f_equal; [lia|]. f_equal; [lia|]. f_equal. lia. }
   destruct (sfl_kw_cases (x - 4210749) ltac:(lia)) as
     [(K & R)|[(K & R)|[(K & R)|[(K & R)|[(K & R)|[(K & R)|(K & R)]]]]]];
@@ -71,7 +71,7 @@ Qed.
 Theorem sf_length_is_spec x : x < 18446744073709551616 -> sf_length x = sf_spec_len x.
 Proof.
   intro Hx. rewrite sf_length_norm by exact Hx.
-  unfold sf_spec_len, tbl_len, sf_norm_len, sf_table.
+  unfold sf_spec_len, sftbl_len, sf_norm_len, sf_table.
   destruct (x <=? 63) eqn:E1; [find_go; reflexivity|].
   destruct (x <=? 16446) eqn:E2; [find_go; reflexivity|].
   destruct (x <=? 4210749) eqn:E3; [find_go; reflexivity|].
@@ -83,15 +83,15 @@ Qed.
 Theorem sf_rev_is_spec x : x < 18446744073709551616 -> sf_rev_put_forward x = sf_spec_rev x.
 Proof.
   intro Hx. rewrite sf_rev_put_forward_norm by exact Hx.
-  unfold sf_spec_rev, tbl_encode_rev, sf_rev_norm, sf_table.
+  unfold sf_spec_rev, sftbl_encode_rev, sf_rev_norm, sf_table.
   destruct (x <=? 63) eqn:E1.
-  { find_go. change (lv_encode_rev _ x) with (le_bytes 1 (0 + (x - 0))).
+  { find_go. change (sflv_encode_rev _ x) with (le_bytes 1 (0 + (x - 0))).
     rewrite sfl_le_bytes_1. f_equal. lia. }
   destruct (x <=? 16446) eqn:E2.
-  { find_go. change (lv_encode_rev _ x) with (le_bytes 2 (16384 + (x - 63))).
+  { find_go. change (sflv_encode_rev _ x) with (le_bytes 2 (16384 + (x - 63))).
     rewrite sfl_le_bytes_2. f_equal; [lia|]. f_equal. lia. }
   destruct (x <=? 4210749) eqn:E3.
-  { find_go. change (lv_encode_rev _ x) with (le_bytes 3 (8388608 + (x - 16446))).
+  { find_go. change (sflv_encode_rev _ x) with (le_bytes 3 (8388608 + (x - 16446))).
     rewrite sfl_le_bytes_3. f_equal; [lia|]. f_equal; [lia|]. f_equal. lia. }
   destruct (sfl_kw_cases (x - 4210749) ltac:(lia)) as
     [(K & R)|[(K & R)|[(K & R)|[(K & R)|[(K & R)|[(K & R)|(K & R)]]]]]];
@@ -199,15 +199,15 @@ Qed.
 Theorem sfnz_put_is_spec x : 1 <= x -> x < 18446744073709551616 -> sfnz_put x = sfnz_spec x.
 Proof.
   intros H1 Hx. rewrite sfnz_put_sf by assumption. rewrite sf_put_norm by lia.
-  unfold sfnz_spec, tbl_encode, sf_norm, sfnz_table.
+  unfold sfnz_spec, sftbl_encode, sf_norm, sfnz_table.
   destruct (x - 1 <=? 63) eqn:E1.
-  { find_go. change (lv_encode _ x) with (be_bytes 1 (0 + (x - 1))).
+  { find_go. change (sflv_encode _ x) with (be_bytes 1 (0 + (x - 1))).
     rewrite sfl_be_bytes_1. f_equal. lia. }
   destruct (x - 1 <=? 16446) eqn:E2.
-  { find_go. change (lv_encode _ x) with (be_bytes 2 (16384 + (x - 64))).
+  { find_go. change (sflv_encode _ x) with (be_bytes 2 (16384 + (x - 64))).
     rewrite sfl_be_bytes_2. f_equal; [lia|]. f_equal. lia. }
   destruct (x - 1 <=? 4210749) eqn:E3.
-  { find_go. change (lv_encode _ x) with (be_bytes 3 (8388608 + (x - 16447))).
+  { find_go. change (sflv_encode _ x) with (be_bytes 3 (8388608 + (x - 16447))).
     rewrite sfl_be_bytes_3. f_equal; [lia|]. f_equal; [lia|]. f_equal. lia. }
   replace (x - 1 - 4210749) with (x - 4210750) by lia.
   destruct (sfl_kw_cases (x - 4210750) ltac:(lia)) as
@@ -219,7 +219,7 @@ Theorem sfnz_length_is_spec x : 1 <= x -> x < 18446744073709551616 ->
   sfnz_length x = sfnz_spec_len x.
 Proof.
   intros H1 Hx. rewrite sfnz_length_sf by assumption. rewrite sf_length_norm by lia.
-  unfold sfnz_spec_len, tbl_len, sf_norm_len, sfnz_table.
+  unfold sfnz_spec_len, sftbl_len, sf_norm_len, sfnz_table.
   destruct (x - 1 <=? 63) eqn:E1; [find_go; reflexivity|].
   destruct (x - 1 <=? 16446) eqn:E2; [find_go; reflexivity|].
   destruct (x - 1 <=? 4210749) eqn:E3; [find_go; reflexivity|].
@@ -234,15 +234,15 @@ Theorem sfnz_rev_is_spec x : 1 <= x -> x < 18446744073709551616 ->
 Proof.
   intros H1 Hx. rewrite sfnz_rev_put_forward_sf by assumption.
   rewrite sf_rev_put_forward_norm by lia.
-  unfold sfnz_spec_rev, tbl_encode_rev, sf_rev_norm, sfnz_table.
+  unfold sfnz_spec_rev, sftbl_encode_rev, sf_rev_norm, sfnz_table.
   destruct (x - 1 <=? 63) eqn:E1.
-  { find_go. change (lv_encode_rev _ x) with (le_bytes 1 (0 + (x - 1))).
+  { find_go. change (sflv_encode_rev _ x) with (le_bytes 1 (0 + (x - 1))).
     rewrite sfl_le_bytes_1. f_equal. lia. }
   destruct (x - 1 <=? 16446) eqn:E2.
-  { find_go. change (lv_encode_rev _ x) with (le_bytes 2 (16384 + (x - 64))).
+  { find_go. change (sflv_encode_rev _ x) with (le_bytes 2 (16384 + (x - 64))).
     rewrite sfl_le_bytes_2. f_equal; [lia|]. f_equal. lia. }
   destruct (x - 1 <=? 4210749) eqn:E3.
-  { find_go. change (lv_encode_rev _ x) with (le_bytes 3 (8388608 + (x - 16447))).
+  { find_go. change (sflv_encode_rev _ x) with (le_bytes 3 (8388608 + (x - 16447))).
     rewrite sfl_le_bytes_3. f_equal; [lia|]. f_equal; [lia|]. f_equal. lia. }
   replace (x - 1 - 4210749) with (x - 4210750) by lia.
   destruct (sfl_kw_cases (x - 4210750) ltac:(lia)) as
